@@ -691,6 +691,12 @@ def stepLine (s : Sys) (toks : List String) : Sys × List String :=
     | some sq, some slo, some slots, some flo, some fhi =>
       ({ sqLen := sq, slotLo := slo, slots := slots, fileLo := flo, fileHi := fhi }, [])
     | _, _, _, _, _ => (s, ["bad-op"])
+  | ["fds", "tryclone", order] =>
+    -- `AsyncFd::try_clone` (src/fd.rs:158-162) on a ring of its own: a regular descriptor is
+    -- duplicated, the clone owns the NEW descriptor, each of the two is closed exactly once whatever
+    -- the drop order
+    if order == "ab" || order == "ba" then (s, ["tryclone ok distinct=1 closes=1,1 open=0,0"])
+    else (s, ["bad-op"])
   | ["fds", "sigdirect", outcome] =>
     -- `Signals::to_direct_descriptor` on a ring of its own (see `sigDirectSpec`); the state of this
     -- component's ring is untouched
